@@ -118,13 +118,17 @@ func TestC08(t *testing.T) {
 					rt.Fatalf("harness error")
 				}
 			case 1:
+				// (with several faults one may undo another, e.g. a named type toggled twice: then the
+				// document is judged like any other; only a single fault must show its rule)
 				found := len(g.Faults) > 1
 				for _, w := range want {
 					if w.Rule == g.Faults[0].Rule {
 						found = true
 					}
 				}
-				if len(want) == 0 || !found {
+				if len(g.Faults) > 1 && len(want) == 0 {
+					r.Class("faulty:faults-cancelled-each-other")
+				} else if len(want) == 0 || !found {
 					r.HarnessErrorf("fault %s (rule %s) is not reported by the reference: %v\nschema: %s\nquery: %s\nbefore: %s", g.Faults[0].Name, g.Faults[0].Rule, want, c.Schema, c.Query, g.Before)
 					rt.Fatalf("harness error")
 				}
